@@ -75,6 +75,7 @@ def make_peer(rnd, now, n):
         ip = None
     p = Peer(host, {'hosts': {host: {'tcp_port': 50001}}}, source='gen', ip_addr=ip)
     p.last_good = rnd.choice([now - 10, now - 3600, now - 4 * 3600, 0])
+    p.last_try = rnd.choice([now - 5, now - 100, now - 5 * 3600])
     p.bad = rnd.random() < 0.2
     return p
 
